@@ -7,6 +7,7 @@ import (
 	"errors"
 	"fmt"
 	"math/rand"
+	"os"
 	"reflect"
 	"sort"
 	"strings"
@@ -17,6 +18,7 @@ import (
 
 	gerrors "github.com/tochemey/goakt/v4/errors"
 	"github.com/tochemey/goakt/v4/internal/verifrt"
+	"github.com/tochemey/goakt/v4/log"
 	"github.com/tochemey/goakt/v4/supervisor"
 )
 
@@ -1273,7 +1275,11 @@ func TestVerif_C07(t *testing.T) {
 	r.Assume("one FIFO supervision consumer per system: a later failure of a fence actor being acted upon implies earlier failures were acted upon (quiescence only)")
 	r.Assume("a restart that the parent has dispatched completes within 20s (normal: milliseconds); after that a still-suspended actor counts as not restarted")
 
-	sys := vfNewSystem(t)
+	var sysOpts []Option
+	if os.Getenv("C07_DEBUG") != "" {
+		sysOpts = append(sysOpts, WithLogger(log.NewZap(log.WarningLevel, os.Stderr)))
+	}
+	sys := vfNewSystem(t, sysOpts...)
 	defer vfStop(sys)
 	sub, err := sys.Subscribe()
 	if err != nil {
